@@ -3,10 +3,17 @@
 Proof: lean/Reduino/Props/C18.lean over Fw/LcdAnim.lean.
 Ties: S_c (firmware model vs the compiled sketch's mock cell matrix after every loop() pass, scripted clock) and
 H (host model vs the real LCD.animate/tick).  Oracle: monitors on both traces (no delay, geometry, termination bound,
-looping never ends, rate limit, tick injected once per pass, host tick never raises)."""
+looping never ends, rate limit, tick injected once per pass, host tick never raises).
+
+A further firmware family (own PRNG, monitors only): panels of 2 and 4 rows whose rows WITHOUT an animation carry static text, animations of every
+style with texts up to more than twice the row, stepping on every pass, run until well after the row is full.  Every lcd.cursor / lcd.print event is
+replayed through an HD44780 address map (row r starts at DDRAM 0x00, 0x40, 0x00+cols, 0x40+cols; 40 bytes per controller line), so a character written
+at a column >= cols is followed to the cell it would reach on the device; the static rows must read unchanged after every pass, in the mock's matrix
+and in the replayed DDRAM, and no written cell may lie outside columns 0..cols-1 of the animation's own row."""
 from __future__ import annotations
 
 import importlib
+import random
 
 import common
 import devscript as ds
@@ -17,6 +24,7 @@ TRUSTED = [
     "harness/mockcore (cell matrix, virtual millis() with scripted drift) + host g++",
     "the counter model (Fw.tickW) is run with W = 2^64, the width of the host compiler's unsigned long; on the board W = 2^32 (the theorems hold for every W); ASCII text",
     "`ticked once per loop() pass without delay` is decided on the emitted code by the trace monitor",
+    "HD44780 address map in the harness (row offsets 0x00/0x40/cols/0x40+cols, 40-byte lines) for following writes past the row; the mock matrix itself drops them as lcd.overflow",
 ]
 HEAD = ["from Reduino.Displays import LCD", "from Reduino.Communication import SerialMonitor", "from Reduino.Utils import sleep"]
 STYLES = ["scroll", "blink", "typewriter", "bounce"]
@@ -60,6 +68,77 @@ def fw_script(cols, rows, anims, sleep_ms, in_loop=False):
     if sleep_ms:
         lines.append(f"    sleep({sleep_ms})")
     return "\n".join(lines) + "\n"
+
+
+def static_script(cols, rows, anims, statics, sleep_ms):
+    lines = HEAD + ["mon = SerialMonitor(9600)", f"lcd = LCD(rs=12, en=11, d4=5, d5=4, d6=3, d7=2, cols={cols}, rows={rows})"]
+    lines += [f"lcd.line({r}, {t!r})" for r, t in sorted(statics.items())]
+    lines += [f"lcd.animate({s!r}, {r}, {t!r}, speed_ms={sp}, loop={lp})" for s, r, t, sp, lp in anims]
+    lines += ['mon.write("#")', "while True:", '    mon.write("#")']
+    if sleep_ms:
+        lines.append(f"    sleep({sleep_ms})")
+    return "\n".join(lines) + "\n"
+
+
+class Hd44780:
+    """DDRAM of a 2-line-mode controller as the LiquidCrystal library addresses it (rows 2 and 3 continue rows 0 and 1)"""
+
+    def __init__(self, cols, rows):
+        self.cols, self.rows = cols, rows
+        self.off = [0x00, 0x40, 0x00 + cols, 0x40 + cols]
+        self.ram = {}
+        self.addr = 0
+
+    def clear(self):
+        self.ram, self.addr = {}, 0
+
+    def cursor(self, c, r):
+        self.addr = (self.off[max(0, min(r, self.rows - 1))] + c) & 0x7F
+
+    def put(self, ch):
+        self.ram[self.addr] = ch
+        a = self.addr + 1
+        self.addr = 0x40 if a == 0x28 else 0x00 if a >= 0x68 else a
+
+    def where(self, addr):
+        for r in range(self.rows):
+            if self.off[r] <= addr < self.off[r] + self.cols:
+                return r, addr - self.off[r]
+        return None
+
+    def row(self, r):
+        return "".join(self.ram.get(self.off[r] + c, " ") for c in range(self.cols))
+
+
+def static_rows_monitor(ctx, trace, cols, rows, anims, statics, replay):
+    """rows that carry no animation keep their text; every written cell lies in columns 0..cols-1 of a row of its animation"""
+    dev = Hd44780(cols, rows)
+    anim_rows = {a[1] for a in anims}
+    want = {r: t.ljust(cols)[:cols] for r, t in statics.items()}
+    started, k = False, -1
+    for l in trace:
+        w = l.split(" ")
+        if l.startswith("== loop"):
+            started, k = True, k + 1
+        elif w[0] == "lcd.clear":
+            dev.clear()
+        elif w[0] == "lcd.cursor":
+            dev.cursor(int(w[2]), int(w[3]))
+        elif w[0] == "lcd.print":
+            cx, cy, text = int(w[2]), int(w[3]), bytes.fromhex(w[4][1:]).decode("latin-1")
+            for i, ch in enumerate(text):
+                if started and (cy not in anim_rows or not 0 <= cx + i < cols):
+                    hit = dev.where(dev.addr)
+                    ctx.fail("anim:cell-off-row", f"pass {k}: a frame wrote {ch!r} at column {cx + i} of row {cy} on a {cols}x{rows} display (animated rows {sorted(anim_rows)}): "
+                             + (f"on an HD44780 that is row {hit[0]} column {hit[1]} of the panel" if hit else "off-screen DDRAM on an HD44780"), {**replay, "pass": k})
+                    started = None          # one report per run; keep replaying
+                dev.put(ch)
+        elif w[0] == "lcd.cells" and started is not False:
+            grid = bytes.fromhex(w[3][1:]).decode("latin-1").split("\n")
+            for r, t in want.items():
+                if grid[r] != t or dev.row(r) != t:
+                    ctx.fail("anim:static-row-changed", f"pass {k}: row {r} carries no animation and held {t!r}; now the cell matrix reads {grid[r]!r}, the HD44780 DDRAM {dev.row(r)!r}", {**replay, "pass": k})
+                    return
 
 
 def canon(h):
@@ -192,6 +271,37 @@ def run(ctx: Ctx) -> int:
         r = cxx.run_many(ctx, [(cpp, 3, "")])[0]
         if r.ok and not any(l.startswith("millis") for l in r.trace):
             ctx.fail("anim:loop-started-never-ticked", "an animation started inside the while True: body is never ticked", {"script": src})
+    # ---------- static rows next to animations with long texts (own PRNG; monitors only) ------------------------------
+    rng_s = random.Random(f"{ctx.seed}:C18:static-rows")
+    scases = []
+    for cols, rows in ((16, 2), (20, 4), (20, 4), (8, 2), (16, 4), (20, 2)):
+        for style in STYLES if (cols, rows) in ((16, 2), (20, 4)) else rng_s.sample(STYLES, min(4, ctx.n(2, 4))):
+            ar = rng_s.randrange(rows)
+            ln = rng_s.choice([cols + 1, cols + 2, cols + 5, 2 * cols + 3, 40 - cols + 2, cols, cols - 1])
+            anims = [(style, ar, "".join(rng_s.choice(ALPHA) for _ in range(ln)), rng_s.choice([0, 0, 1, 20]), rng_s.random() < 0.4)]
+            if rows == 4 and rng_s.random() < 0.4:
+                r2 = rng_s.choice([r for r in range(rows) if r != ar])
+                anims.append((rng_s.choice(STYLES), r2, "".join(rng_s.choice(ALPHA) for _ in range(rng_s.choice([3, cols + 3]))), 0, True))
+            statics = {r: "".join(rng_s.choice(ALPHA.strip()) for _ in range(rng_s.choice([cols, cols, cols - 3, 1]))) for r in range(rows) if r not in {a[1] for a in anims}}
+            scases.append((cols, rows, anims, statics, 30, min(2 * ln + cols + 8, 110)))
+    ssrcs = [static_script(c, r, a, st, sl) for c, r, a, st, sl, p in scases]
+    souts = [cxx.transpile(x) for x in ssrcs]
+    sres = iter(cxx.run_many(ctx, [(cpp, scases[i][5], "") for i, (cpp, e) in enumerate(souts) if cpp is not None]))
+    for (cols, rows, anims, statics, sl, passes), src, (cpp, exc) in zip(scases, ssrcs, souts):
+        replay = {"script": src, "passes": passes}
+        ctx.count("static-rows:" + anims[0][0] + (":longer-than-row" if len(anims[0][2]) > cols else ""))
+        if cpp is None:
+            ctx.tie_diff("tie S_c anim (script rejected by the transpiler)", src, "accepted", repr(exc))
+            continue
+        res = next(sres)
+        if res.compile_error or not res.ok:
+            ctx.fail("anim:compile", f"sketch does not compile/run: {(res.compile_error or res.stderr)[:300]}", replay)
+            continue
+        ctx.cov["traces_validated_against_impl"] += 1
+        ctx.case(f"static {cols} {rows} {spec(anims)} {sorted(statics.items())}", nontrivial=True)
+        if any(l.startswith("lcd.overflow") for l in res.trace[res.trace.index("== loop 0"):] if "== loop 0" in res.trace):
+            ctx.count("static-rows:overflow-event")
+        static_rows_monitor(ctx, res.trace, cols, rows, anims, statics, replay)
     # ---------- host side -----------------------------------------------------------------------------------------
     hcases = []
     for _ in range(ctx.n(400, 1500)):
@@ -258,5 +368,6 @@ def run(ctx: Ctx) -> int:
             ctx.tie_diff("tie H anim (Lcd.Host animation model vs real LCD.animate/tick)", {**replay, "tick_index": k - 1}, b[k][:200], a[k][:200])
     ctx.cov["rule"] = ("1-3 animations (all four styles, texts from empty to longer than the row, loop on/off, speed 0..1000) on displays of 1-20 columns x 1-4 rows; "
                        "firmware: compiled sketch run for bound+6 passes with scripted clock drift and a per-pass sleep (early/on-time/late ticks); host: tick time "
-                       "sequences with gaps 1..1000 ms")
+                       "sequences with gaps 1..1000 ms; static-rows family: 2- and 4-row panels with static text on the rows that carry no animation, texts up to more than "
+                       "twice the row, a step on every pass, every written cell followed through the HD44780 address map")
     return ctx.finish(TRUSTED, search=None)
